@@ -17,7 +17,7 @@ from vlib import core, tlc
 
 SUB = "background"
 
-CURRENT = {"WakeRule": '"always"', "BottomRule": '"l0limit"', "LevelLoop": '"once"'}
+CURRENT = {"WakeRule": '"always"', "BottomRule": '"l0limit"', "LevelLoop": '"once"', "RegisterRule": '"first"'}
 
 # constants of a configuration and the matching driver arguments
 CONFIGS = {
@@ -80,7 +80,10 @@ def teeth(ctx):
     """counterexamples of the pinned behaviour -> directed schedules on the real engine"""
     n = 0
     for label, variant, cname in (("lost_wakeup", {"WakeRule": '"orig"'}, "base"),
-                                  ("level0_starved", {"BottomRule": '"orig"'}, "flat")):
+                                  ("level0_starved", {"BottomRule": '"orig"'}, "flat"),
+                                  # not a defect of the pinned code: the window the stall controller closes by creating
+                                  # its Notified future before it reads the counts must stay closed
+                                  ("stall_signal_lost", {"RegisterRule": '"late"'}, "base")):
         c = dict(CONFIGS[cname], **CURRENT)
         c.update(variant)
         c["MaxCommits"] = 9
